@@ -73,6 +73,23 @@ def _root(f, x, depth=3):
     return v
 
 
+def range_for(f, h):
+    """(range expression, element variable) if loop h is a range-based for (it visits every element of its range, in order), else None"""
+    t = f.blocks[h].get("term")
+    if not t or t.get("k") != "forrange" or not isinstance(t.get("cond"), list):
+        return None
+    c = t["cond"]
+    bv = c[2][1] if isinstance(c[2], list) and c[2][:1] == ["var"] else None
+    if not bv or not bv.startswith("__begin"):
+        return None
+    n = bv[len("__begin"):]
+    rd = [d for _, _, d in f.events(lambda q: q["k"] == "decl" and q["var"] == "__range" + n and q.get("init") is not None)]
+    ed = [d for _, _, d in f.events(lambda q: q["k"] == "decl" and isinstance(q.get("init"), list) and q["init"][:2] in (["un", "*"], ["opc", "*"]) and q["init"][2] == ["var", bv])]
+    if len(rd) != 1 or len(ed) != 1:
+        return None
+    return rd[0]["init"], ed[0]["var"]
+
+
 def unit_sets(f):
     """(header, body, block, idx, event, index variable) of every `X..[i] = 1` inside a loop whose loop variable is i"""
     out = []
@@ -164,55 +181,79 @@ def node_sweeps(chk, P, funcs, rule="SWEEP", direction=None):
     n = 0
     for name, expected in sorted(funcs.items()):
         fs = [f for f in P.all_fns() if f.name.split("::")[-1] == name and "SimbodyMatterSubsystemRep" in f.name]
-        fs = [f for f in fs if any(True for _ in f.events(lambda q: q["k"] == "mem" and str(q.get("field", "")).endswith("::rbNodeLevels")))]
+        def mentions(f):
+            return any(True for _ in f.events(lambda q: q["k"] == "mem" and str(q.get("field", "")).endswith("::rbNodeLevels")))
+        fs = [f for f in fs if mentions(f) or any(mentions(g) for g in P.all_fns() if g.d.get("parent") == f.id)]
         if not chk.shape(len(fs) >= 1, rule, name + ":found", "", "%d definitions sweeping rbNodeLevels" % len(fs)):
             continue
-        for f in fs[:1]:
+        for f0 in fs[:1]:
+          lv = lambda x: bool(sx_find(x, lambda y: y[0] == "mem" and y[2].endswith("::rbNodeLevels")))
+          seen_at = []
+          # the operator itself and its local lambdas (a pass extracted into a lambda is ordered by where the lambda is called)
+          parts = [(f0, None)] + [(g, min([e["line"] for _, _, e in f0.calls() if e.get("fid") == g.id] or [g.line])) for g in P.all_fns() if g.d.get("parent") == f0.id and g.blocks]
+          for f, at_line in parts:
             loops = f.loops()
-            lv = lambda x: bool(sx_find(x, lambda y: y[0] == "mem" and y[2].endswith("::rbNodeLevels")))
             seen = []
             for h in sorted(loops, key=lambda h: -h):       # CFG block ids decrease in source order
-                body = loops[h]
-                iv, c = _loop_var(f, h)
-                if not iv or not isinstance(c, list):
-                    continue
-                # node loop: bound is rbNodeLevels[i].size()
-                if not (c[1] == "<" and lv(c[3]) and sx_find(c[3], lambda y: y[0] in ("opc", "idx") and len(y) > 3)):
-                    continue
-                outer = [oh for oh in f.loops_of(h) if oh != h and h in loops[oh]]
-                if not outer:
-                    continue
-                oh = min(outer, key=lambda x: len(loops[x]))
-                ov, oc = _loop_var(f, oh)
-                direction = direction or {}
-                calls = [q for bb in body for q in f.blocks[bb]["ev"] if q["k"] == "call" and "RigidBodyNode" in str(q.get("fn", "")) and
-                         (re.search(r"(Inward|Outward)$", str(q["fn"])) or str(q["fn"]).split("::")[-1] in direction)]
-                for q in calls:
-                    rn = str(q["fn"]).split("::")[-1]
-                    seen.append(rn)
-                    n += 1
-                    site = "%s:%d" % (f.file, q["line"])
-                    od = [d for _, _, d in f.events(lambda z: z["k"] == "decl" and z["var"] == ov)]
-                    od = [d for d in od if f.path_exists(_pos(f, d), lambda z: z is q, lambda z: any(z is o for o in od if o is not d), lift=0) is not None]
-                    init = od[0].get("init") if len(od) == 1 else None
-                    st = _steps(f, loops[oh] - body, ov)
-                    if rn.endswith("Inward") or direction.get(rn) == "Inward":
-                        ok = isinstance(init, list) and lv(init) and bool(sx_find(init, lambda y: y[0] in ("op", "opc") and y[1] == "-" and _lit(y[3], ("1",)))) and \
-                            isinstance(oc, list) and oc[1] in (">=", ">") and _lit(oc[3], ("0",)) and st == ["--"]
-                        chk.judge(ok, rule, "%s:%s:levels-last..0-children-before-parents" % (name, rn), site, "level loop %s = %s; %s; %s" % (ov, sx_str(init), sx_str(oc), st))
-                    else:
-                        ok = _lit(init, ("0", "1")) and isinstance(oc, list) and oc[1] == "<" and lv(oc[3]) and st == ["++"]
-                        chk.judge(ok, rule, "%s:%s:levels-0..last-parents-before-children" % (name, rn), site, "level loop %s = %s; %s; %s" % (ov, sx_str(init), sx_str(oc), st))
-                    jd = [d for _, _, d in f.events(lambda z: z["k"] == "decl" and z["var"] == iv)]
-                    jd = [d for d in jd if f.path_exists(_pos(f, d), lambda z: z is q, lambda z: any(z is o for o in jd if o is not d), lift=0) is not None]
-                    okj = len(jd) == 1 and _lit(jd[0].get("init"), ("0",)) and _steps(f, body, iv) == ["++"] and bool(sx_find(c[3], lambda y: y == ["var", ov]))
-                    chk.judge(okj, rule, "%s:%s:all-nodes-of-the-level" % (name, rn), site, "node loop %s = %s; %s" % (iv, sx_str(jd[0].get("init")) if jd else None, sx_str(c)))
-                    byp = _iter_bypass(f, h, body, (h, len(f.blocks[h]["ev"]) - 1), [q])
-                    chk.judge(byp is None, rule, "%s:%s:called-for-every-node" % (name, rn), site, "an iteration of the node loop can finish without calling %s" % rn, byp)
-                    onode = call_obj(q)
-                    onode = _deref_local(f, onode, q)
-                    chk.judge({y[1] for y in sx_find(onode, lambda y: y[0] == "var")} >= {ov, iv}, rule, "%s:%s:on-node[level][j]" % (name, rn), site, "called on %s" % sx_str(onode))
-            chk.judge(seen == expected, rule, name + ":passes-in-order", f.loc, "node routines in sweep order: %s (required %s)" % (seen, expected))
+                  body = loops[h]
+                  iv, c = _loop_var(f, h)
+                  rf = range_for(f, h)
+                  if rf is not None:
+                      # node loop written as a range-for over rbNodeLevels[i]
+                      if not (lv(rf[0]) and sx_find(rf[0], lambda y: y[0] in ("opc", "idx") and len(y) > 3)):
+                          continue
+                  else:
+                      if not iv or not isinstance(c, list):
+                          continue
+                      # node loop: bound is rbNodeLevels[i].size()
+                      if not (c[1] == "<" and lv(c[3]) and sx_find(c[3], lambda y: y[0] in ("opc", "idx") and len(y) > 3)):
+                          continue
+                  outer = [oh for oh in f.loops_of(h) if oh != h and h in loops[oh]]
+                  if not outer:
+                      continue
+                  oh = min(outer, key=lambda x: len(loops[x]))
+                  ov, oc = _loop_var(f, oh)
+                  direction = direction or {}
+                  calls = [q for bb in body for q in f.blocks[bb]["ev"] if q["k"] == "call" and "RigidBodyNode" in str(q.get("fn", "")) and
+                           (re.search(r"(Inward|Outward)$", str(q["fn"])) or str(q["fn"]).split("::")[-1] in direction)]
+                  for q in calls:
+                      rn = str(q["fn"]).split("::")[-1]
+                      seen.append((q["line"], rn))
+                      n += 1
+                      site = "%s:%d" % (f.file, q["line"])
+                      od = [d for _, _, d in f.events(lambda z: z["k"] == "decl" and z["var"] == ov)]
+                      od = [d for d in od if f.path_exists(_pos(f, d), lambda z: z is q, lambda z: any(z is o for o in od if o is not d), lift=0) is not None]
+                      init = od[0].get("init") if len(od) == 1 else None
+                      st = _steps(f, loops[oh] - body, ov)
+                      if rn.endswith("Inward") or direction.get(rn) == "Inward":
+                          ok = isinstance(init, list) and lv(init) and bool(sx_find(init, lambda y: y[0] in ("op", "opc") and y[1] == "-" and _lit(y[3], ("1",)))) and \
+                              isinstance(oc, list) and oc[1] in (">=", ">") and _lit(oc[3], ("0",)) and st == ["--"]
+                          chk.judge(ok, rule, "%s:%s:levels-last..0-children-before-parents" % (name, rn), site, "level loop %s = %s; %s; %s" % (ov, sx_str(init), sx_str(oc), st))
+                      else:
+                          ok = _lit(init, ("0", "1")) and isinstance(oc, list) and oc[1] == "<" and lv(oc[3]) and st == ["++"]
+                          chk.judge(ok, rule, "%s:%s:levels-0..last-parents-before-children" % (name, rn), site, "level loop %s = %s; %s; %s" % (ov, sx_str(init), sx_str(oc), st))
+                      if rf is not None:
+                          okj = bool(sx_find(rf[0], lambda y: y == ["var", ov]))
+                          chk.judge(okj, rule, "%s:%s:all-nodes-of-the-level" % (name, rn), site, "range-for over %s" % sx_str(rf[0]))
+                      else:
+                          jd = [d for _, _, d in f.events(lambda z: z["k"] == "decl" and z["var"] == iv)]
+                          jd = [d for d in jd if f.path_exists(_pos(f, d), lambda z: z is q, lambda z: any(z is o for o in jd if o is not d), lift=0) is not None]
+                          okj = len(jd) == 1 and _lit(jd[0].get("init"), ("0",)) and _steps(f, body, iv) == ["++"] and bool(sx_find(c[3], lambda y: y == ["var", ov]))
+                          chk.judge(okj, rule, "%s:%s:all-nodes-of-the-level" % (name, rn), site, "node loop %s = %s; %s" % (iv, sx_str(jd[0].get("init")) if jd else None, sx_str(c)))
+                      byp = _iter_bypass(f, h, body, (h, len(f.blocks[h]["ev"]) - 1), [q])
+                      chk.judge(byp is None, rule, "%s:%s:called-for-every-node" % (name, rn), site, "an iteration of the node loop can finish without calling %s" % rn, byp)
+                      onode = call_obj(q)
+                      raw = onode
+                      onode = _deref_local(f, onode, q)
+                      if rf is not None:
+                          oknode = raw == ["var", rf[1]] or (isinstance(onode, list) and {y[1] for y in sx_find(onode, lambda y: y[0] == "var")} == {rf[1]})
+                      else:
+                          oknode = {y[1] for y in sx_find(onode, lambda y: y[0] == "var")} >= {ov, iv}
+                      chk.judge(oknode, rule, "%s:%s:on-node[level][j]" % (name, rn), site, "called on %s" % sx_str(onode))
+            seen_at += [((at_line if at_line is not None else ln), rn_) for ln, rn_ in seen]
+          seen = [rn_ for _, rn_ in sorted(seen_at, key=lambda x: x[0])]
+          f = f0
+          chk.judge(seen == expected, rule, name + ":passes-in-order", f.loc, "node routines in sweep order: %s (required %s)" % (seen, expected))
             # pass k completes (its level loop is left) before pass k+1 starts: no node routine of a later pass inside an earlier pass's loop is implied by `seen` being grouped per loop
     return n
 
